@@ -123,6 +123,8 @@ def install(cfg: dict):
             os._exit(137)
         elif mode == "raise" and n == k:
             STATE["fired"] = [qual, line - code.co_firstlineno]
+            if cfg.get("exc") == "KeyboardInterrupt":     # an interruption that is not an Exception subclass
+                raise KeyboardInterrupt(f"injected before event {k}: {qual}+{line - code.co_firstlineno}")
             raise InjectedFault(f"injected before event {k}: {qual}+{line - code.co_firstlineno}")
         elif mode == "delay":
             if rnd.random() < p:
